@@ -31,6 +31,9 @@ What the code does (validated on the real code, see `notes/asbuilt_w11.md`):
   has the key and `contains_exact_word` from ANY child; `SpellCheck` accepts a word token iff its
   metadata (assigned by `Document::new` with the same merged dictionary) exists, admits the dialect,
   and the word or its lower-cased form is contained exactly.
+* The handlers look at the document URL twice — is the scheme `untitled`, does `to_file_path()`
+  succeed — and `HarperAddToFileDict` / a document check behave differently in each of the four cases
+  (`UrlKind`, validated on the real server: `notes/asbuilt_w24_s6.md`).
 * The JS `Linter` keeps `user_dictionary` and a lint dictionary built from it by
   `synchronize_lint_dict`, which `import_words` only calls when `word_count` grew.
 
@@ -251,17 +254,57 @@ structure State where
 
 def fileDisk (files : List (Nat × Disk)) (name : Nat) : Disk := (files.lookup name).getD .absent
 
+/-! ### the document URL, as far as the handlers look at it
+
+`harper-ls/src/backend.rs` makes exactly two tests on a document URL (`tower_lsp::lsp_types::Url`, crate
+`url` 2.5.4):
+
+* `url.scheme() == "untitled"` — `load_file_dictionary` answers `Ok(MutableDictionary::new())` at once
+  ("VS Code's unsaved documents have "untitled" scheme");
+* `url.to_file_path()` — `file_dict_name` (hence `get_file_dict_path`: both `load_file_dictionary` for
+  the other schemes and `save_file_dictionary`) and `update_document_from_file`. It succeeds iff the URL
+  has path segments (is not "cannot-be-a-base") and no host other than `localhost`; **the scheme is not
+  tested**. So `untitled:Untitled-1` (an unsaved VS Code buffer) has no path, `untitled:/home/u/new.md`
+  (an unsaved buffer with an associated file name) HAS one, `zq:opaque` and `zq://host/a.md` have none.
+
+The four combinations are four behaviours of `HarperAddToFileDict` and of a document check. -/
+structure UrlKind where
+  /-- `url.scheme() == "untitled"` -/
+  untitled : Bool
+  /-- `url.to_file_path().is_ok()` -/
+  path : Bool
+  deriving Repr, DecidableEq, Inhabited
+
+/-- `file:///a/b.md` (and any host-less hierarchical URL of another scheme) -/
+abbrev fileUrl : UrlKind := ⟨false, true⟩
+/-- `untitled:Untitled-1` -/
+abbrev untitledUrl : UrlKind := ⟨true, false⟩
+/-- `untitled:/a/b.md` -/
+abbrev untitledPathUrl : UrlKind := ⟨true, true⟩
+/-- `zq:opaque`, `zq://host/a.md` -/
+abbrev opaqueUrl : UrlKind := ⟨false, false⟩
+
+/-- `Backend::load_file_dictionary` on the dictionary file `disk` of the document's name: `none` = `Err`
+(`get_file_dict_path` failed: "Unable to get the file path."). For an `untitled:` URL the file is not
+even looked at. -/
+def loadFileDict (f : Fns) (u : UrlKind) (disk : Disk) : Option (List Word) :=
+  if u.untitled then some []
+  else if u.path then some (loadOrEmpty f disk)
+  else none
+
 inductive Op where
   /-- `HarperAddToUserDict` -/
   | add (w : Word) (ord : List Word)
-  /-- `HarperAddToFileDict` for a document whose `file_dict_name` is `name` -/
-  | addFile (name : Nat) (w : Word) (ord : List Word)
+  /-- `HarperAddToFileDict` for a document whose URL answers the two tests as `u` and whose
+  `file_dict_name` is `name` (meaningless, and never used, when `u.path = false`) -/
+  | addFile (u : UrlKind) (name : Nat) (w : Word) (ord : List Word)
   /-- server restart: everything in memory is gone -/
   | restart
   /-- `HarperAddToUserDict` whose `save_dict` dies at crash point `(k, j)`; then a restart -/
   | crashAdd (w : Word) (ord : List Word) (k j : Nat)
-  /-- a document update (`update_document`): reload the dictionaries, check the word tokens `qs` -/
-  | lint (name : Nat) (qs : List Word)
+  /-- a document update (`update_document`, from `didOpen` / `didChange`) of a document of URL kind `u`:
+  reload the dictionaries, check the word tokens `qs` -/
+  | lint (u : UrlKind) (name : Nat) (qs : List Word)
   /-- `Linter::import_words` -/
   | jsImport (ws : List Word)
   /-- `Linter::lint` on a text whose word tokens are `qs` -/
@@ -278,20 +321,51 @@ def savedWords (f : Fns) (disk : Disk) (w : Word) (ord : List Word) : List Word 
 def children (f : Fns) (cur : List Entry) (s : State) (name : Nat) : List (List Entry) :=
   [cur, entries (loadOrEmpty f s.user), entries (loadOrEmpty f (fileDisk s.files name))]
 
-/-- one operation; the `Bool`s are the accept answers of the lint ops -/
+/-- `generate_file_dictionary` for a document of URL kind `u`: `none` = `Err` ("Unable to load the file
+dictionary."); for an `untitled:` URL the third child is always empty; `childrenOf … fileUrl` is
+`some (children …)` -/
+def childrenOf (f : Fns) (cur : List Entry) (s : State) (u : UrlKind) (name : Nat) :
+    Option (List (List Entry)) :=
+  (loadFileDict f u (fileDisk s.files name)).map fun fd =>
+    [cur, entries (loadOrEmpty f s.user), entries fd]
+
+/-- one operation; the `Bool`s are the accept answers of the lint ops.
+
+`addFile` is the `HarperAddToFileDict` arm of `execute_command`, step by step:
+`load_file_dictionary(url)` — on `Err` the handler logs and **returns `Ok(None)`**: nothing saved, the
+document not re-read, nothing published; otherwise `append_word`, then `save_file_dictionary(url, dict)`
+— `get_file_dict_path` fails when the URL has no path: the error is logged and dropped, **nothing is
+written**, the dictionary with the new word is dropped with the handler's frame (the server keeps no
+file dictionary in memory) — then `update_document_from_file(url)` — fails likewise, so the document
+keeps its dictionary, linter and lints — then `publish_diagnostics(url)` (the unchanged lints are
+published again). The response is `Ok(None)` in every case: the client is told nothing.
+For `untitled:/a/b.md` the dictionary that is saved is `{w}` alone (the old file was never loaded) and
+it REPLACES the file dictionary of `/a/b.md`.
+(`mem` for a URL with a path assumes, as for `file:` URLs, that the path can be read from disk.)
+
+`lint`: when `generate_file_dictionary` fails, `update_document` returns `Err` before it touches
+`doc_state`; `didOpen` / `didChange` log it and publish what the document state holds — for a document
+that could never be opened, nothing: no word is ever reported. -/
 def step (f : Fns) (cur : List Entry) (s : State) : Op → State × List Bool
   | .add w ord =>
     let disk := run (saveTrace (savedWords f s.user w ord)) s.user
     ({ s with user := disk, mem := loadOrEmpty f disk }, [])
-  | .addFile name w ord =>
+  | .addFile u name w ord =>
     let old := fileDisk s.files name
-    let disk := run (saveTrace (savedWords f old w ord)) old
-    ({ s with files := (name, disk) :: s.files, mem := loadOrEmpty f s.user }, [])
+    match loadFileDict f u old with
+    | none => (s, [])
+    | some d =>
+      if u.path then
+        let disk := run (saveTrace (orderOf ord (insert f w d))) old
+        ({ s with files := (name, disk) :: s.files, mem := loadOrEmpty f s.user }, [])
+      else (s, [])
   | .restart => ({ s with mem := [] }, [])
   | .crashAdd w ord k j =>
     ({ s with user := crashDisk (saveTrace (savedWords f s.user w ord)) k j s.user, mem := [] }, [])
-  | .lint name qs =>
-    ({ s with mem := loadOrEmpty f s.user }, qs.map (acceptM f (children f cur s name)))
+  | .lint u name qs =>
+    match childrenOf f cur s u name with
+    | some ch => ({ s with mem := loadOrEmpty f s.user }, qs.map (acceptM f ch))
+    | none => (s, qs.map fun _ => true)
   | .jsImport ws => ({ s with js := s.js.importWords f ws }, [])
   | .jsLint qs => (s, qs.map (acceptM f [cur, entries s.js.lint]))
   | .jsRestart ord => ({ s with js := Js.importWords f (orderOf ord s.js.user) {} }, [])
